@@ -84,6 +84,18 @@ def make_spec(rng, light=False):
     spec = gen.general(rng, maxfev=(20, 60) if light else (25, 90),
                        forms=("nlc", "dict_ineq"), with_callback=False,
                        with_faults=False, fun_none=0.05)
+    if rng.random() < 0.45:
+        # non-default constants (kept per call, never in module-level state)
+        cst = {}
+        if rng.random() < 0.7:
+            cst["improve_tcg"] = bool(rng.random() < 0.35)
+        if rng.random() < 0.3:
+            cst["low_ratio"] = float(rng.uniform(0.05, 0.3))
+        if rng.random() < 0.3:
+            cst["decrease_radius_factor"] = float(rng.uniform(0.3, 0.7))
+        if rng.random() < 0.2:
+            cst["byrd_omojokun_factor"] = float(rng.uniform(0.6, 0.9))
+        spec["constants"] = cst
     return spec
 
 
@@ -294,6 +306,15 @@ def run_nested(case):
     w = rng.uniform(0.5, 2.0, 2)
     inner_log = []
     table = {}
+    inner_cst = {}
+    if rng.random() < 0.6:
+        inner_cst["improve_tcg"] = bool(rng.random() < 0.5)
+    if rng.random() < 0.3:
+        inner_cst["low_ratio"] = float(rng.uniform(0.05, 0.3))
+    outer_cst = {}
+    if rng.random() < 0.4:
+        outer_cst["improve_tcg"] = bool(rng.random() < 0.5)
+    box = rng.random() < 0.6   # a box makes boundary improvements matter
 
     def inner_solve(x):
         # inner problem depends on x: min_y (y0 - x0)^2 + w0 (y1 - 1)^2, y>=0
@@ -307,7 +328,7 @@ def run_nested(case):
                 warnings.simplefilter("ignore")
                 r = cobyqa.minimize(g, [0.5, 0.5],
                                     bounds=[(0, None), (0, None)],
-                                    options={"maxfev": 40})
+                                    options={"maxfev": 40}, **inner_cst)
         return r
 
     def outer_nested(x):
@@ -327,11 +348,16 @@ def run_nested(case):
     opts = {"maxfev": int(rng.integers(12, 30))}
     with warnings.catch_warnings():
         warnings.simplefilter("ignore")
+        bnds = [(-0.6, 0.7)] * n if box else None
+        if box:
+            x0 = np.clip(x0, -0.6, 0.7)
         with ctx.active(ctx.Run(label="outer")):
-            ra = cobyqa.minimize(outer_nested, x0, options=opts)
+            ra = cobyqa.minimize(outer_nested, x0, bounds=bnds, options=opts,
+                                 **outer_cst)
         try:
             with ctx.active(ctx.Run(label="outer2")):
-                rb = cobyqa.minimize(outer_table, x0, options=opts)
+                rb = cobyqa.minimize(outer_table, x0, bounds=bnds,
+                                     options=opts, **outer_cst)
         except KeyError:
             rb = None
     if rb is None or not (ra.x.tobytes() == rb.x.tobytes()
